@@ -149,9 +149,11 @@ CHECKS = {
              'ends are numbers of its own lines (so within 1..#lines), start <= end, no line of the field lies after end and no '
              'line with content before start; line numbers increase strictly over all fields of all paragraphs (C05), so '
              'ranges of different fields are disjoint and increasing; k blank lines at the top shift every line number of the '
-             'parsed groups by exactly k and change nothing else (the parser is proved parametric in the numbering). NOT '
-             'proved: how ranges compose through merged unknown paragraphs and folded licenses, and the shift law at the '
-             'level of the whole copyright object; these are decided by co-execution of the complete model (ranges included) '
+             'parsed groups by exactly k and change nothing else (the parser is proved parametric in the numbering), and - for '
+             'every text in which each paragraph has a field with a value - shift every recorded range of the WHOLE copyright '
+             'object by exactly k, through renaming, merged unknown paragraphs and folded licenses, changing nothing else. NOT '
+             'proved as separate theorems: how ranges compose through merged unknown paragraphs and folded licenses (start of '
+             'the first, end of the last); decided by co-execution of the complete model (ranges included) '
              'with copyright.py on texts biased to the recovery paths, each also with 1/2/5 blank lines prepended, and by the '
              'executable statement (bounds, non-blank ends, words inside the range, disjoint and increasing, shift).',
         note=TRUST,
